@@ -9,7 +9,7 @@ EXTENDS LexIter, TLC
 
 Num == INSTANCE NumericCmp
 
-KnownIds == {"C20-KF1", "C20-KF2", "C20-KF3", "C20-KF4", "C20-KF5", "C20-KF6", "C20-KF7", "C20-KF8", "C20-KF9"}
+KnownIds == {"C20-KF1"}
 
 (* guards and batch predicates are evaluated as plain boolean expressions (IF conditions): as   *)
 (* action conjuncts TLC would branch on every witness of their existential quantifiers          *)
